@@ -66,6 +66,10 @@ def scenarios(draw):
     cluster = {'status_sub': draw(st.booleans()), 'api_latency': draw(st.sampled_from([None, 0.3, 0.3, 1.0])),
                'rsp_latency': draw(st.sampled_from([None, None, 0.3, 1.0])),
                'watch_latency': draw(st.sampled_from([None, None, 0.1]))}
+    if draw(st.booleans()):
+        # a sibling kind in the same API group whose plural merely begins with ours, with the opposite subresource layout: what
+        # the discovery says about `kopfexamplesets/status` says nothing about `kopfexamples`
+        cluster['extra_resources'] = [{'gvp': ['kopf.dev', 'v1', 'kopfexamplesets'], 'kind': 'KopfExampleSet', 'status_sub': not cluster['status_sub']}]
     return {'seed': draw(st.integers(0, 9999)), 'spec': spec, 'cluster': cluster, 'actions': actions}
 
 
